@@ -2,6 +2,7 @@ package main
 
 import (
 	"fmt"
+	"os"
 	"go/token"
 	"go/types"
 	"sort"
@@ -42,6 +43,14 @@ func analyseLoops(fn *ssa.Function) (map[*ssa.BasicBlock]*loopInfo, []*loopInfo)
 	// source order: by position of the first instruction with a valid position in the header, fallback block index
 	pos := func(li *loopInfo) int {
 		best := token.Pos(0)
+		for _, in := range li.header.Instrs {
+			if p := in.Pos(); p.IsValid() && (best == 0 || p < best) {
+				best = p
+			}
+		}
+		if best != 0 {
+			return int(best)
+		}
 		for b := range li.blocks {
 			for _, in := range b.Instrs {
 				if p := in.Pos(); p.IsValid() && (best == 0 || p < best) {
@@ -54,9 +63,21 @@ func analyseLoops(fn *ssa.Function) (map[*ssa.BasicBlock]*loopInfo, []*loopInfo)
 		}
 		return int(best)
 	}
-	sort.Slice(order, func(i, j int) bool { return pos(order[i]) < pos(order[j]) })
+	sort.Slice(order, func(i, j int) bool {
+		pi, pj := pos(order[i]), pos(order[j])
+		if pi != pj {
+			return pi < pj
+		}
+		if len(order[i].blocks) != len(order[j].blocks) {
+			return len(order[i].blocks) > len(order[j].blocks) // outer loop first
+		}
+		return order[i].header.Index < order[j].header.Index
+	})
 	for i, li := range order {
 		li.index = i
+		if os.Getenv("GOVC_DEBUG") != "" {
+			fmt.Fprintf(os.Stderr, "loop %d of %s: header block %d, %d blocks, pos %d\n", i, fn.Name(), li.header.Index, len(li.blocks), pos(li))
+		}
 	}
 	return loops, order
 }
